@@ -28,6 +28,14 @@ def materialise(base, files):
             if gz is None:
                 f.write(data)
             else:
+                if gz.get('with_name'):
+                    # written the way gzip(1) / gzip.open() write it: the
+                    # header carries the original file name (FLG.FNAME set)
+                    with gzip.GzipFile(filename=gz['with_name'], mode='wb',
+                                       fileobj=f, compresslevel=gz.get(
+                                           'level', 6)) as g:
+                        g.write(data)
+                    continue
                 cuts = [0] + sorted(gz.get('cuts', [])) + [len(data)]
                 for a, b in zip(cuts, cuts[1:]):
                     if b > a or len(cuts) == 2:
